@@ -735,7 +735,7 @@ func decodeScenarios(d *decodeCtx, thoroughTier bool) map[string]choice.Scenario
 		d.feed(c, in, 1, "S3 JSON mutation of "+s.name)
 	}
 	// hostile heads and nesting (C06's family; also run for C05)
-	lens := []uint64{0, 1, 23, 24, 255, 256, 65535, 65536, 1 << 20, 1 << 24, 1<<31 - 1, 1 << 31, 1<<32 - 1, 1 << 32, 1<<63 - 1, 1<<64 - 1}
+	lens := []uint64{0, 1, 23, 24, 255, 256, 65535, 65536, 1 << 20, 1 << 24, 1<<31 - 1, 1 << 31, 1<<32 - 1, 1 << 32, 1<<63 - 1, 1<<64 - 1, 1 << 63, 1<<63 + 1, 1<<64 - 16, 1<<64 - 10, 1<<64 - 9, 1<<64 - 8, 1<<64 - 2}
 	sc["hostile-heads"] = func(c *choice.Ctx) {
 		mj := []byte{2, 3, 4, 5, 6}[c.Choose("major", 5)]
 		w := []int{0, 1, 2, 4, 8}[c.Choose("width", 5)]
@@ -762,7 +762,7 @@ func decodeScenarios(d *decodeCtx, thoroughTier bool) map[string]choice.Scenario
 		}
 		follow := [][]byte{nil, {0x00}, {0x00, 0x00, 0x01, 0x01, 0x02, 0x02, 0x03, 0x03}}[c.Choose("followed-by", 3)]
 		item := append(append([]byte{}, head...), follow...)
-		pos := c.Choose("position", 9)
+		pos := c.Choose("position", 13)
 		var in []byte
 		raw := mcbor.RawBytes(item)
 		cl := c02Claims()[0]
@@ -795,6 +795,14 @@ func decodeScenarios(d *decodeCtx, thoroughTier bool) map[string]choice.Scenario
 			items[slot] = raw
 			in = mcbor.Encode(mcbor.Tg(18, mcbor.A(items[:slot+1]...).W(0)))
 			in[1] = 0x84 // declare four elements regardless
+		case 9: // first element of an indefinite-length array that is the value of a codec-level field
+			in = append([]byte{0xa1, 0x00, 0x9f}, item...)
+		case 10: // ... of an array declaring 2^32-1 elements
+			in = append([]byte{0xa1, 0x00, 0x9a, 0xff, 0xff, 0xff, 0xff}, item...)
+		case 11: // ... value inside a nested map that is the value of a codec-level field
+			in = append([]byte{0xa1, 0x00, 0xa1, 0x00}, item...)
+		case 12: // ... inside an indefinite-length map under an unknown claim key
+			in = append([]byte{0xa1, 0x19, 0x27, 0x0f, 0xbf, 0x00}, item...)
 		}
 		if c.Choose("behind-tag", 2) == 1 {
 			in = append([]byte{0xd8, 0x64}, in...)
@@ -804,8 +812,8 @@ func decodeScenarios(d *decodeCtx, thoroughTier bool) map[string]choice.Scenario
 	depths := []int{16, 31, 32, 33, 1000, 10001, 32768}
 	sc["nesting"] = func(c *choice.Ctx) {
 		di := c.Choose("depth", len(depths))
-		shape := c.Choose("shape", 6)
-		if !d.mine(di*6 + shape) {
+		shape := c.Choose("shape", 8)
+		if !d.mine(di*8 + shape) {
 			return
 		}
 		n := depths[di]
@@ -820,6 +828,20 @@ func decodeScenarios(d *decodeCtx, thoroughTier bool) map[string]choice.Scenario
 			in = append(bytesRepeat([]byte{0xc1}, n), 0x00)
 		case 3:
 			in = append(bytesRepeat([]byte{0x9f}, n), bytesRepeat([]byte{0xff}, n)...)
+		case 6, 7: // byte strings wrapping byte strings (6: around a claims map, 7: around an envelope)
+			seed := c02SeedBytes(shape == 7)
+			var heads [][]byte
+			size := len(seed)
+			for i := 0; i < n && size < 65536-9; i++ {
+				h := mcbor.Encode(mcbor.B(make([]byte, size)))
+				h = h[:len(h)-size]
+				heads = append(heads, h)
+				size += len(h)
+			}
+			for i := len(heads) - 1; i >= 0; i-- {
+				in = append(in, heads[i]...)
+			}
+			in = append(in, seed...)
 		case 4:
 			in = append(bytesRepeat([]byte{'['}, n), bytesRepeat([]byte{']'}, n)...)
 			kind = 1
@@ -840,6 +862,14 @@ func decodeScenarios(d *decodeCtx, thoroughTier bool) map[string]choice.Scenario
 		}
 	}
 	return sc
+}
+
+func c02SeedBytes(env bool) []byte {
+	pl := mcbor.Encode(wireTree(c02Claims()[0], true))
+	if !env {
+		return pl
+	}
+	return mcbor.Encode(mcbor.Tg(18, mcbor.A(mcbor.B(protHeader("ES256")), mcbor.M(), mcbor.B(pl), mcbor.B(pat(64, 1)))))
 }
 
 func bytesRepeat(b []byte, n int) []byte {
